@@ -251,8 +251,7 @@ def c20_2(ck, prog):
                 'another registration\'s data, a later handler runs after one handled the message, or the '
                 'remaining fallbacks are skipped after a handler declined', floor=6)
     fn = prog.fn('_dbus_object_tree_dispatch_and_unlock', OT)
-    enum = prog.enumerators.get('DBUS_HANDLER_RESULT_NOT_YET_HANDLED') if hasattr(prog, 'enumerators') else None
-    nyh = enum if isinstance(enum, int) else NYH
+    nyh = prog.enums.get('DBUS_HANDLER_RESULT_NOT_YET_HANDLED', NYH)
     ind = [(b, ev) for b, i, ev in fn.events() if ev['ev'] == 'call' and not ev['e'].get('callee')
            and ev['e'].get('fn') is not None]
     if len(ind) != 1:
@@ -1167,6 +1166,123 @@ def c20_8(ck, prog):
                      'the copy loop must start at 0 and advance by one per child'))
 
 
+# ---------------------------------------------------------------------------
+# C20.9 life cycle of the fallback flag
+
+def c20_9(ck, prog):
+    r = ck.rule('C20.9', 'a node carries the fallback flag only while a fallback handler is registered on it: the flag '
+                'is set from a registration\'s fallback argument only, starts FALSE, and unregistering resets it '
+                'together with the other registration fields', 'WHO',
+                breaks='paths below a node that has no fallback registration (any more) are still treated as "below a '
+                'fallback": callers get UnknownMethod instead of UnknownObject, and a later lookup stops at that node',
+                floor=3)
+    for f, line, how, rhs, lhs in lib.field_writes(prog, NODE, 'invoke_as_fallback'):
+        key = '%s:invoke_as_fallback=%s' % (f.name, estr(rhs) if rhs is not None else how)
+        if how == '=' and is_int(rhs, 0):
+            r.ok(key)
+            continue
+        if f.name == '_dbus_object_tree_register':
+            a, s = norm_cond(rhs)
+            if how == '=' and a is not None and a[0] == 'truthy' and is_ref(a[1]) and a[1].get('id') == param_id(f, 1):
+                r.ok(key)
+                continue
+        r.violation('%s:flag-without-registration' % f.name, f.name, f.file, line,
+                    'the fallback flag is set (%s %s) outside a registration: the node is treated as a fallback '
+                    'registration although no fallback handler is registered on it' % (how, estr(rhs)))
+    us = prog.fn('unregister_subtree', OT)
+    me = param_id(us, 0)
+
+    def val(x):
+        if member_of(x, 'message_function', me):
+            return 1
+        return None
+    seen, lab = lib.symbolic_walk(us, us.entry, val, lambda b, ev: None, unknown=assert_branches(us))
+    reset = {}
+    for ev in seen:
+        for lhs, how, rhs in written_lvalues(ev):
+            if is_member(lhs, None, NODE) and is_ref(lhs['base']) and lhs['base'].get('id') == me and how == '=' \
+                    and is_int(rhs, 0):
+                reset[lhs['field']] = True
+    for fld in ('message_function', 'unregister_function', 'user_data', 'invoke_as_fallback'):
+        key = 'unregister_subtree:resets-%s' % fld
+        if reset.get(fld):
+            r.ok(key)
+        elif fld == 'invoke_as_fallback':
+            r.violation('unregister_subtree:fallback-flag-not-cleared', us.name, OT, us.line,
+                        'unregistering leaves invoke_as_fallback as it was: a node that stays in the tree (it has '
+                        'children) keeps acting as a fallback registration')
+        else:
+            r.violation(key, us.name, OT, us.line, 'unregistering does not reset %s' % fld)
+
+
+# ---------------------------------------------------------------------------
+# C20.10 an unhandled method call is answered or retried, never swallowed
+
+def c20_10(ck, prog):
+    r = ck.rule('C20.10', 'after the object tree declined a method call, dbus_connection_dispatch either sends the '
+                'automatic error reply or leaves with NEED_MEMORY (which puts the message back to be dispatched '
+                'again); no exit consumes the call without an answer', 'TS',
+                breaks='with no taker the caller receives neither UnknownMethod nor UnknownObject: the call is '
+                'silently dropped (e.g. when one allocation fails while the error is being built)', floor=1)
+    d = prog.fn('dbus_connection_dispatch', CONN)
+    need = prog.enums.get('DBUS_HANDLER_RESULT_NEED_MEMORY', 2)
+    tc = [c for b, i, c in d.calls('_dbus_object_tree_dispatch_and_unlock')]
+    if len(tc) != 1:
+        raise AnalysisBroken('dbus_connection_dispatch: expected one object-tree dispatch call')
+    resv = [lhs for b, i, ev in d.events() for lhs, how, rhs in written_lvalues(ev)
+            if rhs is not None and how == '=' and rhs.get('k') == 'call' and rhs.get('id') == tc[0]['id']
+            and is_ref(lhs)]
+    if len(resv) != 1:
+        raise AnalysisBroken('dbus_connection_dispatch: result variable of the object-tree dispatch not found')
+    rid, rname = resv[0]['id'], resv[0]['name']
+    SEND = {'_dbus_connection_send_preallocated_unlocked_no_update', '_dbus_connection_send_unlocked_no_update',
+            '_dbus_connection_send_preallocated_and_unlock', '_dbus_connection_send_and_unlock'}
+    errs = {c['id'] for b, i, c in d.calls('dbus_message_new_error')}
+    puts = [c for b, i, c in d.calls('_dbus_connection_putback_message_link_unlocked')]
+    if not puts or not errs:
+        raise AnalysisBroken('dbus_connection_dispatch: error reply / put-back not found')
+    nchecked = [0]
+
+    def on_event(user, ev, ctx):
+        tree, call, sent = user
+        if ev['ev'] == 'call':
+            c = ev['e']
+            if c['id'] == tc[0]['id']:
+                return (True, call, sent)
+            if tree and c.get('callee') in SEND and len(c['args']) > 2:
+                o = ctx.origin_call(c['args'][2]) if c['callee'].startswith('_dbus_connection_send_prealloc') \
+                    else ctx.origin_call(c['args'][1])
+                if o is not None and o[0] in errs:
+                    return (tree, call, True)
+        return user
+
+    def on_edge(user, bid, idx, atom, sense, ctx):
+        tree, call, sent = user
+        if not tree or atom is None:
+            return user
+        if atom[0] == 'cmp' and atom[1] == '==' and is_call(atom[2], 'dbus_message_get_type') and is_int(atom[3], 1):
+            return (tree, bool(sense), sent)
+        if atom[0] == 'cmp' and atom[1] == '==' and is_ref(atom[2]) and atom[2].get('id') == rid \
+                and is_int(atom[3], need) and call and not sent:
+            nchecked[0] += 1
+            if sense is False:
+                v = ctx.env.get(('v', rid))
+                ctx.report('a method call that no handler took leaves dispatch with %s = %s and without the error '
+                           'reply having been sent: it is neither answered nor put back' % (
+                               rname, v[1] if v and v[0] == 'c' else 'the tree\'s NOT_YET_HANDLED'),
+                           d.blocks[bid]['term']['line'], key=('swallowed', d.blocks[bid]['term']['line']))
+        return user
+    ex = Explorer(d, init=(False, False, False), on_event=on_event, on_edge=on_edge, track={rname, 'reply'},
+                  calls={'dbus_message_new_error'}, cap=600000).run()
+    if not nchecked[0]:
+        raise AnalysisBroken('dbus_connection_dispatch: the NEED_MEMORY test after the unhandled-call block was '
+                             'not reached')
+    if ex.reports:
+        r.from_reports(ex.reports, keyfn=lambda k, rep: 'dispatch:%s' % k[0])
+    else:
+        r.ok('dispatch:unhandled-call-answered-or-retried')
+
+
 def run(ck):
     ck.explanation = (
         'Static rules over dbus/dbus-object-tree.c and the dispatch / registration entry points of '
@@ -1196,3 +1312,5 @@ def run(ck):
         c20_6(ck, prog)
         c20_7(ck, prog)
         c20_8(ck, prog)
+        c20_9(ck, prog)
+        c20_10(ck, prog)
